@@ -68,6 +68,20 @@ pub fn p_grid() -> Vec<f64> {
             }
         }
     }
+    // values at graded distances from every k/n boundary (a tolerance in the whole-number test shows up here)
+    for n in 1..=4 {
+        for k in 0..=n {
+            let b = k as f64 / n as f64;
+            for d in [1e-15, 1e-13, 1e-12, 1e-11, 1e-10, 4e-10, 1e-9, 1e-8, 1e-6] {
+                if b + d <= 1.0 {
+                    ps.push(b + d);
+                }
+                if b - d >= 0.0 {
+                    ps.push(b - d);
+                }
+            }
+        }
+    }
     // a fixed spread of "ordinary" values
     for i in 1..50 {
         ps.push((i as f64 * 0.618033988749895) % 1.0);
@@ -93,7 +107,7 @@ pub fn run(cx: &Ctx) {
     cx.run_enum(&Small, total, |i| Some(QStream { p: ps[(i % np) as usize], xs: seqs[(i / np) as usize].clone() }), "all sequences of length 1..=4 over a 5-symbol alphabet with a duplicate x p grid of 100+ values (all k/n boundaries +- 1 ulp)");
     cx.label("generated");
     let strat = || {
-        (prop_oneof![2 => 0.0..=1.0f64, 1 => proptest::sample::select(p_grid())], vec(prop_oneof![3 => -1e6..1e6f64, 1 => (-30.0..30.0f64).prop_map(|e| 10f64.powf(e)), 1 => proptest::sample::select(vec![0.0, -0.0, 1.0, -1.0]), 1 => proptest::sample::select(vec![f64::MAX, f64::MIN, 1e308, 1.5e308, -1e308, -1.7e308, 5e-324, -5e-324, f64::MIN_POSITIVE]), 1 => (300.0..308.25f64, any::<bool>()).prop_map(|(e, s)| { let v = 10f64.powf(e).min(f64::MAX); if s { -v } else { v } })], 1..5))
+        (prop_oneof![2 => 0.0..=1.0f64, 1 => proptest::sample::select(p_grid()), 1 => (0u8..5, 1u8..5, -16.0..-5.0f64, any::<bool>()).prop_map(|(k, n, e, s)| { let b = (k.min(n) as f64) / n as f64; let d = 10f64.powf(e); (if s { b + d } else { b - d }).clamp(0.0, 1.0) })], vec(prop_oneof![3 => -1e6..1e6f64, 1 => (-30.0..30.0f64).prop_map(|e| 10f64.powf(e)), 1 => proptest::sample::select(vec![0.0, -0.0, 1.0, -1.0]), 1 => proptest::sample::select(vec![f64::MAX, f64::MIN, 1e308, 1.5e308, -1e308, -1.7e308, 5e-324, -5e-324, f64::MIN_POSITIVE]), 1 => (300.0..308.25f64, any::<bool>()).prop_map(|(e, s)| { let v = 10f64.powf(e).min(f64::MAX); if s { -v } else { v } })], 1..5))
             .prop_map(|(p, xs)| QStream { p, xs })
     };
     cx.run_pt(&Small, cx.by(10000, 100000), cx.workers, strat, "random finite values, random p");
